@@ -1,8 +1,10 @@
 package main
 
 import (
+	"encoding/json"
 	"fmt"
 	"io"
+	"os"
 	"strings"
 	"sync"
 	"sync/atomic"
@@ -213,6 +215,7 @@ type c33Result struct {
 	stallAt       int // stream index at which a definite stall was seen, -1 none
 	srvConnInflow int32
 	cliConn       int64
+	tail          []string
 }
 
 var c33Reported sync.Map // signature -> true (witness built only once)
@@ -221,6 +224,11 @@ var c33Reported sync.Map // signature -> true (witness built only once)
 func c33RunCase(r *vkit.Run, cs *c33Case, report bool) (res c33Result) {
 	res.stallAt = -1
 	h := &c33Handler{}
+	if os.Getenv("VH2_DEBUG") != "" {
+		defer func() {
+			// runs before the cleanup defer below is registered? no: registered first, so it runs last
+		}()
+	}
 	srv := &bfe_http2.Server{MaxUploadBufferPerStream: cs.StreamWin}
 	tc := dialPipe(srv, h)
 	win := newC33Win()
@@ -234,6 +242,16 @@ func c33RunCase(r *vkit.Run, cs *c33Case, report bool) (res c33Result) {
 				closeOnce(c.hold)
 				closeOnce(c.fin)
 			}
+		}
+		if os.Getenv("VH2_DEBUG") != "" {
+			evs := tc.cli.Events()
+			for k := len(evs) - 12; k < len(evs); k++ {
+				if k >= 0 {
+					res.tail = append(res.tail, evs[k].String())
+				}
+			}
+			e, err := tc.cli.Ended()
+			res.tail = append(res.tail, fmt.Sprintf("ended=%v err=%v werr=%v", e, err, tc.cli.WriteErr()))
 		}
 		tc.cli.Close()
 		if !tc.waitDone(20 * time.Second) {
@@ -916,6 +934,10 @@ var c33LeakSig = map[string]string{
 }
 
 func c33Judge(r *vkit.Run, cs *c33Case, res c33Result) {
+	if (res.inconclusive != "" || !res.ok) && os.Getenv("VH2_DEBUG") != "" {
+		b, _ := json.Marshal(cs)
+		fmt.Fprintf(os.Stderr, "DEBUG case inconclusive=%q ok=%v stall=%d: %s\n  tail: %v\n", res.inconclusive, res.ok, res.stallAt, trunc(string(b), 1500), res.tail)
+	}
 	if res.inconclusive != "" {
 		r.Count("cases_inconclusive", 1)
 		r.Count("inconclusive:"+strings.SplitN(res.inconclusive, ":", 2)[0], 1)
